@@ -280,6 +280,7 @@ Props ==
                                 [] x.kind = "and" -> truth[x.a] \cap truth[x.b]
                                 [] x.kind = "or" -> truth[x.a] \cup truth[x.b]
                                 [] x.kind = "andnot" -> truth[x.a] \ truth[x.b]
+                                [] x.kind = "subnext" -> {i \in ids : (i - 1) \in truth[x.a] /\ (i - 1) \in ids}
                                 [] x.kind = "andall" -> {i \in ids : \A t \in DOMAIN truth : i \in truth[t]}
                                 [] x.kind = "orall" -> {i \in ids : \E t \in DOMAIN truth : i \in truth[t]}
                                 [] x.kind = "norall" -> {i \in ids : \A t \in DOMAIN truth : i \notin truth[t]}
@@ -288,12 +289,16 @@ Props ==
                                ELSE {r.obs.search2[i].a} \cup (IF r.obs.search2[i].b = "" THEN {} ELSE {r.obs.search2[i].b})
                    \* searches that inline a tag with a sub-query (directly or through references): known finding C06.SearchRight:S
                    subs(i) == \E t \in names(i) : HasSub(t)
-                   other == {i \in bad : ~subs(i)}
+                   \* searches that use an undecided tag inside a sub-query of their own: known finding C06.SearchRightCombined:subq
+                   \* (the inlined conditions of the tag are not moved into the sub-query; decided tags are looked up and are right)
+                   sub2(i) == r.obs.search2[i].kind = "subnext" /\ r.obs.search2[i].a \in DOMAIN tags /\ tags[r.obs.search2[i].a].U # {}
+                   other == {i \in bad : ~subs(i) /\ ~sub2(i)}
                    \* ... or a tag with a payload filter while a converter job is in flight: known finding C06.*:convjob
                    conv(i) == flags.conv /\ \E t \in names(i) : HasPayload(t)
                    rest == {i \in other : ~conv(i)}
                IN ChkI(bad = {}, r, "C06.SearchRightCombined",
-                       IF other = {} THEN "S" ELSE IF rest = {} THEN "convjob" ELSE KindsOf(UNION {names(i) : i \in rest}))
+                       IF bad # {} /\ \A i \in bad : sub2(i) THEN "subq"
+                       ELSE IF other = {} THEN "S" ELSE IF rest = {} THEN "convjob" ELSE KindsOf(UNION {names(i) : i \in rest}))
             /\ ChkI(\A s \in DOMAIN r.obs.shown : \A t \in S(r.obs.shown[s]) : t \in DOMAIN truth /\ \E e \in vis : ToString(e[1]) = s /\ e[1] \in truth[t],
                     r, "C06.ShownRight",
                     SigOf({t \in DOMAIN tags : \E s \in DOMAIN r.obs.shown : t \in S(r.obs.shown[s]) /\ ~\E e \in vis : ToString(e[1]) = s /\ e[1] \in truth[t]}))
